@@ -46,7 +46,7 @@ class ArraySys(System):
         self.Lmax = cfg['Lmax']
         self.oracles = set(cfg.get('oracles', ['model']))
         self.features = set(cfg.get('features', []))
-        self.root = None
+        self.root = 'g'
         self.darr = import_darr()
 
     # the array's current dtype / trailing shape (a re-creation may change them)
@@ -64,10 +64,7 @@ class ArraySys(System):
         return os.path.join(self.root, 'arr.darr')
 
     def build(self):
-        if self.root is None:
-            self.root = fresh_dir('arr')
-        else:
-            os.makedirs(self.root, exist_ok=True)
+        os.makedirs(self.root, exist_ok=True)
         n0 = self.cfg['start_len']
         if n0 == 0:
             a = self.darr.create_array(self.path, shape=(0,) + self.trail, dtype=self.dtype,
@@ -146,15 +143,19 @@ class ArraySys(System):
                 ops.append(op)
             else:
                 disabled += 1
-        ops += [('append', 'Z'), ('iterappend', 'empty'),
-                ('append', 'badtrail'), ('append', 'badrank'), ('append', 'unconv')]
+        full = 'model' in self.oracles
+        ops += [('append', 'Z'), ('iterappend', 'empty'), ('append', 'badtrail')]
+        if full:
+            ops += [('append', 'badrank'), ('append', 'unconv')]
         if n > 0:
             ops += [('assign', 0, 'V1'), ('assign', -1, 'V2')]
-        ops += [('truncate', k) for k in TRUNC_KS]
+        ops += [('truncate', k) for k in (TRUNC_KS if full else [0, -1, 'len+1'])]
         ops += [('mode', 'r'), ('mode', 'r+'), ('reopen',), ('truncpath', 0), ('truncpath', -1)]
         if 'meta' in self.features:
             ops += [('meta', 'set', 'a'), ('meta', 'set', 'b'), ('meta', 'del', 'a'),
                     ('meta', 'del', 'b'), ('meta', 'change', 'a')]
+        if 'meta1' in self.features:
+            ops += [('meta', 'set', 'a'), ('meta', 'del', 'a'), ('meta', 'change', 'a')]
         if 'recreate' in self.features:
             ops += [('recreate', 'other'), ('recreate', 'meta'), ('recreate', 'same0')]
         if 'copy' in self.features:
